@@ -13,7 +13,10 @@ XPath oracle, for trees of every depth.
 
 Fragment `NumEF`: number literals, `+ - * div`, unary minus (the parser's `x * -1`), `mod` where
 the oracle is defined (`ModDom`), parentheses, `floor`, `ceiling`, `number`, `number('…')`,
-`string-length('…')`, `count(P)` for flat relative paths `P` (child/attribute/self steps).
+`string-length('…')`, `count(P)` for flat relative paths `P` (child/attribute/self steps), and
+`sum(P)` for flat relative paths `P` all of whose selected nodes are numeric — stated on the oracle
+side (`FlatSum`: the oracle's evaluation of `sum(P)` succeeds); `count` and `sum` may occur anywhere
+inside a tree, e.g. `sum(a/@b) div count(a/@b) + 1`.
 -/
 namespace XPathV.Theorems.C08
 open XPathV XPathV.Model XPathV.Facts XPathV.PathSem XPathV.ArithSem NumAlg
@@ -30,8 +33,8 @@ theorem C08_arith_trees (d : Doc) (cfg : ECfg) (regexOk : RegexOk) (limit : Nat)
       Spec.eval (F := F) d e ctx = .ok (.val (.num x) none) :=
   numE_sem d cfg regexOk limit snt sdf he ctx fl st o hb
 
-/-- **C08, full fragment** (with `mod` on the oracle's domain and `count` over flat paths);
-hypotheses of C01 for the `count` arguments: well-formed document, valid context node, navigator
+/-- **C08, full fragment** (with `mod` on the oracle's domain, `count` over flat paths and `sum`
+over flat paths selecting numeric nodes only); hypotheses of C01 for the `count`/`sum` arguments: well-formed document, valid context node, navigator
 exposing namespace URIs, NoFnvCollision -/
 theorem C08_main {d : Doc} (wf : WF d) (cfg : ECfg) (hns : cfg.nsIface = true)
     (hinj : HashInj d cfg) (regexOk : RegexOk) (limit : Nat) (sdf : Bool)
@@ -51,6 +54,44 @@ theorem C08_evaluate {d : Doc} (wf : WF d) (cfg : ECfg) (hns : cfg.nsIface = tru
       Spec.evalTop (F := F) d e c = .ok (.num x) :=
   numEF_evaluate wf cfg hns hinj regexOk limit sdf c hc he st o hb
 
+/-- **C08, `sum()` over numeric nodes**: for a flat path `P`, if the oracle evaluates `sum(P)` to
+the number `x` — which it does exactly when every node `P` selects is numeric — the plan the
+builder makes of `sum(P)` evaluates to `x`: the engine adds the same numbers in the same (document)
+order, starting from `0` -/
+theorem C08_sum {d : Doc} (wf : WF d) (cfg : ECfg) (hns : cfg.nsIface = true)
+    (hinj : HashInj d cfg) (regexOk : RegexOk) (limit : Nat) (sdf : Bool)
+    (c : Ref) (hc : validRef d c = true) (i n : Nat) {p : Ast} (hp : FlatPath p) (pfx : String)
+    (x : F) (g : Option (List (List Ref)))
+    (hx : Spec.eval (F := F) d (.call "sum" pfx (.acons p .anil)) ⟨c, i, n⟩ = .ok (.val (.num x) g))
+    (fl : Flags) (st : BState) (o : BOut)
+    (hb : build regexOk limit true sdf (.call "sum" pfx (.acons p .anil)) fl st = .ok o) :
+    evalP (F := F) d cfg o.q c = .ok (.num x) :=
+  sum_flat_sem wf cfg hns hinj regexOk limit sdf c hc i n hp pfx x g hx fl st o hb
+
+/-- … at the public API -/
+theorem C08_sum_evaluate {d : Doc} (wf : WF d) (cfg : ECfg) (hns : cfg.nsIface = true)
+    (hinj : HashInj d cfg) (regexOk : RegexOk) (limit : Nat) (sdf : Bool)
+    (c : Ref) (hc : validRef d c = true) {p : Ast} (hp : FlatPath p) (pfx : String) (x : F)
+    (hx : Spec.evalTop (F := F) d (.call "sum" pfx (.acons p .anil)) c = .ok (.num x))
+    (st : BState) (o : BOut)
+    (hb : build regexOk limit true sdf (.call "sum" pfx (.acons p .anil)) {} st = .ok o) :
+    evaluate (F := F) d cfg o.q c = .ok (.num x) :=
+  sum_flat_evaluate wf cfg hns hinj regexOk limit sdf c hc hp pfx x hx st o hb
+
+/-- what the engine computes for `sum(P)` *whatever* the nodes are: Go's callback (skip the nodes
+whose text is not a number) folded over the oracle's node list.  Where some node is not numeric
+the oracle is silent (`unsupported`, `ArithSem.eval_sum_of_nodes`) and the property says nothing. -/
+theorem C08_sum_model {d : Doc} (wf : WF d) (cfg : ECfg) (hns : cfg.nsIface = true)
+    (hinj : HashInj d cfg) (regexOk : RegexOk) (limit : Nat) (sdf : Bool)
+    (c : Ref) (hc : validRef d c = true) (i n : Nat) {p : Ast} (hp : FlatPath p) (pfx : String)
+    (fl : Flags) (st : BState) (o : BOut)
+    (hb : build regexOk limit true sdf (.call "sum" pfx (.acons p .anil)) fl st = .ok o) :
+    ∃ ns g, Spec.eval (F := F) d p ⟨c, i, n⟩ = .ok (.val (.nodes ns) g) ∧
+      evalP (F := F) d cfg o.q c = .ok (.num (ns.foldl (fun acc r =>
+        if isNaN (Spec.strToNum (F := F) (stringValue d r)) = true then acc
+        else add acc (Spec.strToNum (stringValue d r))) (ofNat 0))) :=
+  sum_flat_model wf cfg hns hinj regexOk limit sdf c hc i n hp pfx fl st o hb
+
 /-- **same operation, same operands, same order**: the value of `a op b` is `f x y` on both
 sides, for the one `NumAlg` operation `f` that `op` denotes and the values `x`, `y` of the
 operands — so NaN, ±∞ and −0 propagate identically, whatever IEEE says they do -/
@@ -64,7 +105,7 @@ theorem C08_same_operation (d : Doc) (cfg : ECfg) (regexOk : RegexOk) (limit : N
       evalP (F := F) d cfg o.q ctx.node = .ok (.num (f x y)) ∧
       Spec.eval (F := F) d (.oper op a b) ctx = .ok (.val (.num (f x y)) none) :=
   numEG_oper_value d cfg regexOk limit snt sdf ctx (countOK_false d cfg regexOk limit snt sdf ctx)
-    (modOK_false d ctx) hop ha hb fl st o hbuild
+    (sumOK_false d cfg regexOk limit snt sdf ctx) (modOK_false d ctx) hop ha hb fl st o hbuild
 
 /-- **number → string**: `string(e)` of an arithmetic tree renders the same number with the same
 `Spec.numToStr` on both sides -/
